@@ -89,3 +89,103 @@ def bp_explore(prog, mode, bound, max_runs, seed):
             it = ls.explore_random(sc, max_runs, seed, p_switch=0.4)
         for ex in it:
             yield ex
+
+
+# --------------------------------------------------------------------------- C24
+
+def c24_programs(rnd, n):
+    """transport ops: f1 (feed stdout) f2 (feed stderr / extended data) eof close; reader ops: r1 r2"""
+    progs = []
+    for _ in range(n):
+        init = rnd.choice([(0, 0), (1, 0), (0, 1), (1, 1), (2, 0)])
+        tops = [rnd.choice(["f1", "f2", "f1", "f2", "eof"]) for _ in range(rnd.choice([1, 2]))]
+        if "eof" in tops:
+            tops = tops[:tops.index("eof") + 1]
+        progs.append({"init": init, "T": tops,
+                      "R1": ["r1"] * rnd.choice([0, 1, 2]), "R2": ["r2"] * rnd.choice([0, 1, 1])})
+    return progs
+
+
+def c24_scenario(prog):
+    import os
+    import select
+    import paramiko.channel as pch
+    import paramiko.buffered_pipe as bp
+    from harness.drivers import chan as dchan
+
+    def scenario(S):
+        ch, ft = dchan.make_channel()
+        # buffered data present before fileno() is called
+        if prog["init"][0]:
+            ch._feed(dchan.msg_data(b"o" * prog["init"][0]))
+        if prog["init"][1]:
+            ch._feed_extended(dchan.msg_ext(1, b"e" * prog["init"][1]))
+        fd = ch.fileno()
+        pipe = ch._pipe
+        events = []
+
+        def tbody():
+            for op in prog["T"]:
+                if op == "f1":
+                    ch._feed(dchan.msg_data(b"x"))
+                elif op == "f2":
+                    ch._feed_extended(dchan.msg_ext(1, b"y"))
+                elif op == "eof":
+                    ch._handle_eof(None)
+                events.append({"op": op, "n": 1})
+
+        def rbody(which):
+            def body():
+                for _op in prog["R" + which]:
+                    buf = ch.in_buffer if which == "1" else ch.in_stderr_buffer
+                    # recv()/recv_stderr() as an application uses them after select(): never blocks
+                    try:
+                        d = buf.read(65536, 0.0)
+                    except bp.PipeTimeout:
+                        d = b""
+                    events.append({"op": "r" + which, "n": len(d)})
+            return body
+        S.spawn(tbody, "T")
+        if prog["R1"]:
+            S.spawn(rbody("1"), "R1")
+        if prog["R2"]:
+            S.spawn(rbody("2"), "R2")
+
+        def after(ex):
+            obs = None
+            try:
+                if ex.stuck:
+                    try:
+                        os.write(pipe._wfd, b"!")       # release the thread sitting in os.read()
+                    except OSError:
+                        pass
+                else:
+                    r, _, _ = select.select([fd], [], [], 0)
+                    obs = {"readable": bool(r), "out": len(ch.in_buffer._buffer), "err": len(ch.in_stderr_buffer._buffer),
+                           "eof": bool(ch.eof_received), "closed": bool(ch.closed)}
+            finally:
+                ch._pipe = None
+                if not ex.stuck:
+                    try:
+                        pipe.close()
+                    except OSError:
+                        pass
+            return {"init": list(prog["init"]), "events": list(events), "obs": obs,
+                    "quiescent": not (ex.hang or ex.stuck or ex.budget_exhausted)}
+        return after
+    return scenario
+
+
+def c24_explore(prog, mode, bound, max_runs, seed):
+    import paramiko.channel as pch
+    import paramiko.buffered_pipe as bp
+    import paramiko.pipe as pp
+    sc = c24_scenario(prog)
+    files = {pp.__file__}
+    with ls.patched(bp, pch, pp):
+        if mode == "dfs":
+            it = ls.explore_dfs(sc, bound=bound, max_runs=max_runs, trace_files=files, native_timeout=1.5)
+        else:
+            it = ls.explore_random(sc, max_runs, seed, p_switch=0.35, trace_files=files, native_timeout=1.5)
+        for ex in it:
+            yield ex
